@@ -318,7 +318,7 @@ def gen_lambda(r, size):
     except NotClosed as e:
         static = str(e)
     forlet = has_for_let(ast)
-    if declares_and_reads_outer(ast, outer):
+    if declares_and_reads_outer(ast, outer) or shadow_after_use(ast, outer):
         forlet = "shadow" if not forlet else "shadow+forlet"
     # an unparenthesised chain with user operators (precedence resolved at freeze time)
     if r.random() < 0.5:
@@ -446,12 +446,13 @@ def shard(ctx, si, n):
                 l0, f0 = outcome(evs[5 + 2 * k]), outcome(evs[6 + 2 * k])
                 f1, l1 = outcome(evs[i_after + 2 * k]), outcome(evs[i_after + 2 * k + 1])
                 if l0 != f0:
-                    sh.violation("C17|frozen-differs|%s" % diff_kind(l0, f0),
+                    pattern0 = "local-declaration-of-outer-name-not-dominating-its-reads" if forlet and "shadow" in str(forlet) else diff_kind(l0, f0)
+                    sh.violation("C17|frozen-differs|%s" % pattern0,
                                  "frozen and unfrozen disagree on (%s): unfrozen %s, frozen %s; lambda %s" % (a, str(l0)[:120], str(f0)[:120], lam[:300]), replay)
                     ok = False
                     break
                 if f1 != f0:
-                    pattern = "conditional-local-declaration-shadows-outer-name" if forlet and "shadow" in str(forlet) else diff_kind(f0, f1)
+                    pattern = "local-declaration-of-outer-name-not-dominating-its-reads" if forlet and "shadow" in str(forlet) else diff_kind(f0, f1)
                     sh.violation("C17|frozen-changed-after-reassign|%s" % pattern,
                                  "frozen function changed after reassigning outer names (%s): before %s, after %s; lambda %s" % ("; ".join(re_stmts), str(f0)[:120], str(f1)[:120], lam[:300]), replay)
                     ok = False
